@@ -33,6 +33,8 @@ def lean_type(t) -> str:
         return "Bool"
     if t == "str":
         return "String"
+    if t == "optint":
+        return "(Option Int)"
     if isinstance(t, tuple) and t[0] == "rec":
         return RECORDS[t[1]].lean_type()
     if isinstance(t, tuple) and t[0] == "tuple":
@@ -149,6 +151,7 @@ class Module:
         self.out: list[str] = []
         self.imports = imports or []
         self.entries: list[tuple[str, FuncInfo]] = []   # for the dispatch table
+        self.validators: dict[str, str] = {}            # T9: python name of a translated validator -> Lean name
         for m in self.imports:
             self.consts.update({})   # imported constants are looked up lazily
 
@@ -282,6 +285,7 @@ class Module:
                 env[pname] = ([pname], ptype)
         env.update(extra_env or {})
         ctx = Ctx(self, env, self_type, f"{self.path}:{key}")
+        ctx.attr_map = getattr(self, "_pending_attr_map", None)
         stmts = body if body is not None else fn.body
         code, rtype, raises = ctx.block(stmts)
         code = finalize(code, raises)
@@ -643,6 +647,165 @@ class Module:
         self.out.append(f"@[pygen] def {lean_name} : List Py.Eff := [" + ", ".join("." + e for e in effs) + "]")
         self.out.append("")
 
+    # -- T5: argument checks ("geometry") of constructors, accessors and setters --------------------------------------
+    def find_setter(self, cls: str, name: str) -> ast.FunctionDef:
+        for n in self.find_class(cls).body:
+            if isinstance(n, ast.FunctionDef) and n.name == name and any(
+                    isinstance(d, ast.Attribute) and d.attr == "setter" and isinstance(d.value, ast.Name) and d.value.id == name
+                    for d in n.decorator_list):
+                return n
+        raise Untranslatable(f"{cls}.{name}: setter not found", where=self.path)
+
+    def translate_geometry(self, cls: str, name: str, lean_name: str, params: list[tuple[str, Any]], ret: list[str],
+                           attr_map: dict[str, tuple[str, Any]] | None = None, setter: bool = False,
+                           extra_params: list[tuple[str, Any]] | None = None, other_aspects: tuple[str, ...] = ("dtype",)) -> FuncInfo:
+        """T5: the *validation prefix* of a method - `x = arg_to_uint(desc, x, default)` conversions, comparisons, `raise create_*_error`
+        - as a function from the integer arguments to the validated values `ret` (or the error).
+
+        The prefix starts at the first `arg_to_uint` assignment and ends before the first statement that stores into `self` / resizes
+        / returns.  Statements about the other aspects (`dtype`: `if dtype is None: dtype = ...`) are skipped; `validate_dtype(...)`
+        becomes a check of the Boolean parameter `dtype_ok` at that place, so the ORDER of the checks is the source's.
+        `attr_map` maps source expressions on `self` (e.g. `self._start_index`, `len(self._data)`) to parameters."""
+        fn = self.find_setter(cls, name) if setter else self.find_func(cls, name)
+        body = [st for st in fn.body if not (isinstance(st, ast.Expr) and isinstance(st.value, ast.Constant))]
+
+        def is_conv(st):
+            return (isinstance(st, ast.Assign) and isinstance(st.value, ast.Call) and isinstance(st.value.func, ast.Name)
+                    and st.value.func.id in ("arg_to_uint", "arg_to_int"))
+
+        def stores(st):
+            if isinstance(st, ast.Return):
+                return True
+            if isinstance(st, (ast.Assign, ast.AugAssign, ast.AnnAssign)):
+                tg = st.targets if isinstance(st, ast.Assign) else [st.target]
+                return any(isinstance(t, (ast.Attribute, ast.Subscript)) for t in tg)
+            if isinstance(st, ast.Expr) and isinstance(st.value, ast.Call):
+                f = ast.unparse(st.value.func)
+                return f.startswith("self.") and not f.startswith("self.__class__")
+            if isinstance(st, ast.If):
+                return any(stores(x) for x in st.body + st.orelse)
+            return False
+
+        def other_aspect(st):
+            names = {n.id for n in ast.walk(st) if isinstance(n, ast.Name)}
+            if isinstance(st, ast.If) and names & set(other_aspects) and not any(isinstance(x, ast.Raise) for x in ast.walk(st)):
+                return "skip"
+            if isinstance(st, ast.Expr) and isinstance(st.value, ast.Call) and isinstance(st.value.func, ast.Name) \
+                    and st.value.func.id == "validate_dtype":
+                return "dtype_ok"
+            return None
+        first = next((i for i, st in enumerate(body) if is_conv(st)), None)
+        if first is None:
+            raise Untranslatable(f"{cls}.{name}: no arg_to_uint conversion found", fn, self.path)
+        stmts: list[ast.stmt] = []
+        uses_dtype_ok = False
+        for st in body[first:]:
+            if stores(st):
+                break
+            k = other_aspect(st)
+            if k == "skip":
+                continue
+            if k == "dtype_ok":
+                uses_dtype_ok = True
+                stmts.append(ast.If(test=ast.UnaryOp(op=ast.Not(), operand=ast.Name(id="dtype_ok", ctx=ast.Load())),
+                                    body=[ast.Raise(exc=ast.Call(func=ast.Name(id="unsupported_dtype", ctx=ast.Load()), args=[], keywords=[]), cause=None)],
+                                    orelse=[], lineno=st.lineno))
+                continue
+            stmts.append(st)
+        stmts.append(ast.Return(value=ast.Tuple(elts=[ast.Name(id=r, ctx=ast.Load()) for r in ret], ctx=ast.Load()) if len(ret) > 1
+                                else ast.Name(id=ret[0], ctx=ast.Load()), lineno=fn.end_lineno))
+        ps = list(params) + list(extra_params or []) + ([("dtype_ok", "bool")] if uses_dtype_ok else [])
+        self._pending_attr_map = dict(attr_map or {})
+        try:
+            return self.translate_function(f"{cls}.{name}/geometry", fn, lean_name, ps, body=stmts, protocol=False)
+        finally:
+            self._pending_attr_map = None
+
+    # -- T9: validators over abstract argument objects (what a Timing member can be) ---------------------------------------
+    def translate_arg_validator(self, cls: str | None, name: str, lean_name: str, params: list[str], kinds: dict[str, str],
+                                helpers: dict[str, str] | None = None, skip_params: tuple[str, ...] = ()) -> None:
+        """T9: a function / method that only *inspects* its arguments and raises - `validate_init_args` of the sample-interval
+        strategies, `validate_unsupported_arg` - over the abstract argument universe `Model.Timing.Arg` (absent / datetime of a
+        family / timedelta of a family / sequence of elements / other).
+
+        Statements:  `if <cond>: raise <known error factory>(...)`,  `<helper>(description, x)` (a translated validator).
+        Conditions:  not / and / or;  `x is None`, `x is not None`;  `isinstance(x, K)` or `isinstance(x, (K1, K2))` with K from `kinds`
+        (python spelling -> Lean predicate on Arg);  `all(isinstance(e, K) for e in x)` (K a datetime kind: every element is a
+        timestamp);  `h(x)` for a translated Boolean helper on the sequence's timestamp values.
+        Anything else is Untranslatable (closed subset)."""
+        helpers = helpers or {}
+        fn = self.find_func(cls, name)
+        body = [st for st in fn.body if not (isinstance(st, ast.Expr) and isinstance(st.value, ast.Constant))]
+        allp = [a.arg for a in fn.args.posonlyargs + fn.args.args]
+        if set(params) - set(allp):
+            raise Untranslatable(f"{name}: parameters {sorted(set(params) - set(allp))} not found", fn, self.path)
+
+        def fail(msg, node):
+            raise Untranslatable(f"{name}: {msg}", node, self.path)
+
+        def kind_pred(k: ast.expr, var: str, elem: bool) -> str:
+            if isinstance(k, ast.Tuple):
+                return "(" + " ∨ ".join(kind_pred(x, var, elem) for x in k.elts) + ")"
+            key = ast.unparse(k)
+            if key not in kinds:
+                fail(f"isinstance against unknown kind {key}", k)
+            pred = kinds[key]
+            if elem:
+                if pred != "isDatetime":
+                    fail(f"element test against {key}", k)
+                return f"{var}.isTs = true"
+            return f"{var}.{pred} = true"
+
+        def cond(e: ast.expr) -> str:
+            if isinstance(e, ast.UnaryOp) and isinstance(e.op, ast.Not):
+                return f"¬ ({cond(e.operand)})"
+            if isinstance(e, ast.BoolOp):
+                # `or` / `and` short-circuit; every operand here is total on Arg, so the logical connective is the same
+                j = " ∧ " if isinstance(e.op, ast.And) else " ∨ "
+                return "(" + j.join(f"({cond(v)})" for v in e.values) + ")"
+            if isinstance(e, ast.Compare) and len(e.ops) == 1 and isinstance(e.left, ast.Name) and e.left.id in params \
+                    and isinstance(e.comparators[0], ast.Constant) and e.comparators[0].value is None:
+                if isinstance(e.ops[0], ast.Is):
+                    return f"{e.left.id}.isNone = true"
+                if isinstance(e.ops[0], ast.IsNot):
+                    return f"¬ ({e.left.id}.isNone = true)"
+            if isinstance(e, ast.Call) and isinstance(e.func, ast.Name) and not e.keywords:
+                if e.func.id == "isinstance" and len(e.args) == 2 and isinstance(e.args[0], ast.Name) and e.args[0].id in params:
+                    return kind_pred(e.args[1], e.args[0].id, False)
+                if e.func.id == "all" and len(e.args) == 1 and isinstance(e.args[0], ast.GeneratorExp):
+                    g = e.args[0]
+                    if (len(g.generators) == 1 and not g.generators[0].ifs and isinstance(g.generators[0].target, ast.Name)
+                            and isinstance(g.generators[0].iter, ast.Name) and g.generators[0].iter.id in params
+                            and isinstance(g.elt, ast.Call) and ast.unparse(g.elt.func) == "isinstance" and len(g.elt.args) == 2
+                            and isinstance(g.elt.args[0], ast.Name) and g.elt.args[0].id == g.generators[0].target.id):
+                        v = g.generators[0].target.id
+                        return f"({g.generators[0].iter.id}.elems.all fun {v} => decide ({kind_pred(g.elt.args[1], v, True)})) = true"
+                if e.func.id in helpers and len(e.args) == 1 and isinstance(e.args[0], ast.Name) and e.args[0].id in params:
+                    return f"{helpers[e.func.id]} {e.args[0].id}.elemVals = true"
+            fail(f"unsupported condition {ast.unparse(e)[:80]}", e)
+
+        def stmts(ss: list[ast.stmt]) -> str:
+            if not ss:
+                return "Except.ok ()"
+            st, rest = ss[0], ss[1:]
+            if isinstance(st, ast.If) and not st.orelse and len(st.body) == 1 and isinstance(st.body[0], ast.Raise):
+                exc = st.body[0].exc
+                nm = ast.unparse(exc.func).split(".")[-1] if isinstance(exc, ast.Call) else None
+                if nm not in ERROR_FACTORIES:
+                    fail(f"raise of unknown error {ast.unparse(exc)[:60] if exc else ''}", st)
+                return f"if {cond(st.test)} then Except.error PyErr.{ERROR_FACTORIES[nm]}\nelse\n" + indent(stmts(rest), 1)
+            if (isinstance(st, ast.Expr) and isinstance(st.value, ast.Call) and isinstance(st.value.func, ast.Name)
+                    and st.value.func.id in self.validators and len(st.value.args) == 2 and isinstance(st.value.args[1], ast.Name)
+                    and st.value.args[1].id in params and not st.value.keywords):
+                return f"Except.bind ({self.validators[st.value.func.id]} {st.value.args[1].id}) (fun _ =>\n{stmts(rest)})"
+            fail(f"unsupported statement {ast.unparse(st)[:80]}", st)
+        code = stmts(body)
+        self.out.append(f"/-- generated from `{(cls + '.') if cls else ''}{name}` ({self.path.split('/src/')[-1]}) -/")
+        self.out.append(f"@[pygen] def {lean_name} {' '.join(f'({x} : Model.Timing.Arg)' for x in params)} : Except PyErr Unit :=")
+        self.out.append(indent(code, 1))
+        self.out.append("")
+        self.funcs[f"{cls}.{name}" if cls else name] = FuncInfo(f"{self.ns}.{lean_name}", ["obj"] * len(params), "unit", True)
+
     # -- T3: accumulator loops over a sequence of integers ---------------------------------------------------
     def translate_scan_function(self, name: str, lean_name: str, seq_param: str, enum_cls: str | None = None,
                                 helpers: dict[str, str] | None = None) -> None:
@@ -894,6 +1057,12 @@ class Ctx:
             (m.funcs[f"{cls}.{key_suffix}"] for m in self.mod.imports if f"{cls}.{key_suffix}" in m.funcs), None)
 
     def _expr(self, e: ast.expr, binds) -> tuple[list[str], Any]:
+        amap = getattr(self, "attr_map", None)
+        if amap and not isinstance(e, (ast.Constant, ast.Name)):
+            key = ast.unparse(e)
+            if key in amap:
+                term, ty = amap[key]
+                return [term], ty
         if isinstance(e, ast.Constant):
             if isinstance(e.value, bool):
                 return [("true" if e.value else "false")], "bool"
@@ -1081,8 +1250,14 @@ class Ctx:
             # TypeError stream of the correspondence harness
             return [self._int(args[1], binds)], "int"
         if fname == "arg_to_uint" and len(args) in (2, 3):
-            x = self._int(args[1], binds)
+            terms, ty = self._expr(args[1], binds)
             v = self.fresh("u")
+            if ty == "optint":
+                # T5: an optional argument (None -> the default, which is range-checked like a given value; no default -> TypeError)
+                d = "none" if len(args) == 2 else f"(some {self._int(args[2], binds)})"
+                binds.append((v, f"(Py.argToUintOpt {terms[0]} {d})"))
+                return [v], "int"
+            x = self._int(args[1], binds)
             binds.append((v, f"(Py.argToUint {x})"))
             return [v], "int"
         if fname == "divmod" and len(args) == 2:
@@ -1179,6 +1354,9 @@ class Ctx:
 
     # ---- conditions (Prop) -----------------------------------------------------------------
     def cond(self, e: ast.expr, binds) -> str:
+        amap = getattr(self, "attr_map", None)
+        if amap and ast.unparse(e) in amap and amap[ast.unparse(e)][1] == "bool":
+            return f"{amap[ast.unparse(e)][0]} = true"
         if isinstance(e, ast.UnaryOp) and isinstance(e.op, ast.Not):
             return f"¬ ({self.cond(e.operand, binds)})"
         if isinstance(e, ast.BoolOp):
